@@ -187,6 +187,27 @@ func opDHGen(w *World, s *Step) (string, string) {
 		w.violate("gen_error", "GenerateRandomNumber", "GenerateRandomNumber failed without an injected fault: %v", res.Err)
 	default:
 		c09CheckExponent(w, x, res, s.Rand, s.Repeat != 0)
+		// the exponent must carry the randomness it was drawn with: at least 16 octet positions of the served
+		// stream (128 bits) must each influence it
+		plain := s.Rand == nil || (s.Rand.PatReads == 0 && len(s.Rand.Prefix) == 0 && s.Repeat == 0 && s.Rand.Chunk == 0)
+		if plain && w.step%3 == 0 && w.pendingExpand == nil && res.RandSt.total <= 600 {
+			dep := 0
+			for j := 1; j <= res.RandSt.total && dep < 16; j += 1 + res.RandSt.total/40 {
+				sc := RandScript{Seed: 6}
+				if s.Rand != nil {
+					sc = *s.Rand
+				}
+				sc.FlipAt = j
+				x2, r2 := genNumber(&sc)
+				if r2.class() == "ok" && x2 != nil && x2.Cmp(x) != 0 {
+					dep++
+				}
+			}
+			if dep < 16 {
+				w.violate("exponent_depends_on_too_few_random_octets", "GenerateRandomNumber", "only %d sampled octet positions of the %d octets drawn influence the exponent (128 bits need 16)", dep, res.RandSt.total)
+			}
+			w.stats.inc("exponent_dependency_on_random_stream_checked")
+		}
 	}
 	c09Nontriv(w)
 	return res.class(), abs
